@@ -330,6 +330,11 @@ class BaseAsyncNetworkServerImpl(AbstractAsyncNetworkServer, Generic[_T_LowLevel
                     listeners.extend(await servers_factory(self))  # type: ignore[arg-type]
                 if self.__servers_factory_scope.cancelled_caught():
                     raise ServerClosedError("Server has been closed")
+                if self.__servers_factory_scope.cancel_called():
+                    # server_close() was called but the factory ended before the cancellation could be delivered
+                    # (e.g. it arrived in a cancel-shielded section): do not keep the listeners of a closed server.
+                    await self.__close_all_servers(self.__backend, listeners)
+                    raise ServerClosedError("Server has been closed")
             finally:
                 self.__servers_factory_scope = None
             if not listeners:
@@ -342,9 +347,13 @@ class BaseAsyncNetworkServerImpl(AbstractAsyncNetworkServer, Generic[_T_LowLevel
             await exit_stack.enter_async_context(self.__server_close_lock)
             exit_stack.enter_context(self.__server_close_guard)
 
-            if self.__servers_factory_scope is not None:
-                self.__servers_factory_scope.cancel()
+            servers_factory_scope = self.__servers_factory_scope
             self.__servers_factory_cb = None
+            if servers_factory_scope is not None:
+                servers_factory_scope.cancel()
+                # Wait for the pending server_activate() to be unwound: it closes the listeners it may still create.
+                async with self.__server_activation_lock:
+                    pass
 
             exit_stack.callback(self.__servers.clear)
             exit_stack.push_async_callback(self.__close_all_servers, self.__backend, self.__servers[:])
